@@ -223,6 +223,26 @@ func runC15(env *Env) {
 		emit(sp(entities.OctetArray), "oct "+v, "wf/oct-var")
 	}
 	emit(sp(entities.OctetArray), "oct nil", "wf/oct-var")
+	// special contents: NUL / 0xff runs at either end, all-NUL, all-0xff (content must never matter)
+	for _, n := range []int{1, 2, 5, 17, 254, 255, 256, 300} {
+		for _, fill := range []byte{0x00, 0xff, 0x20} {
+			all := make([]byte, n)
+			for i := range all {
+				all[i] = fill
+			}
+			mid := r.Bytes(n)
+			mid[0], mid[n-1] = fill, fill
+			tail := r.Bytes(n)
+			tail[n-1] = fill
+			for _, b := range [][]byte{all, mid, tail} {
+				emit(sp(entities.String), "str "+BytesArg(b), "wf/str-special")
+				emit(sp(entities.OctetArray), "oct "+BytesArg(b), "wf/oct-special")
+			}
+		}
+	}
+	for _, b := range [][]byte{{0, 0, 0, 0, 0, 0}, {0xff, 0xff, 0xff, 0xff, 0xff, 0xff}, {1, 2, 3, 4, 5, 0}} {
+		emit(sp(entities.MacAddress), "mac "+BytesArg(b), "wf/mac-special")
+	}
 	// fixed-length octet arrays
 	for _, n := range []int{0, 1, 2, 3, 7, 8, 16, 40, 254, 255, 256, 300, 1000, 65534} {
 		s := IESpec{uint16(1 + r.Intn(32000)), uint8(entities.OctetArray), 0, uint16(n)}
